@@ -330,3 +330,113 @@ def single_character_classes(workers=16):
     with multiprocessing.Pool(workers) as pool:
         bad = [b for r in pool.map(_single_chunk, chunks) for b in r]
     return {"code_points": 0x110000 - 2048, "bad": bad[:10]}
+
+
+# ---- F6: Pregex.__repr__ (get_pattern / what compile() compiles) decided unit by unit ---------------------------------------
+# A pattern is a sequence of UNITS: `\X` (a backslash and the character it escapes) or a single other character.  The reference
+# below maps every unit on its own (given the quote repr picks for the whole string); (a) the real function is compared with it on
+# every string up to a length over one representative of each class of characters its three steps can tell apart, plus long
+# backslash runs; (b) for EVERY code point, the image of each unit is shown to denote what the unit denotes in every kind of
+# context (sequence, class member, range end points, repetition operand, comment), by CPython's parser.
+EXPORT_ALPHABET = ["\\", "'", '"', "a", "n", "é", "\n", "\x85"]
+
+
+def export_reference(p):
+    dq = ("'" in p) and ('"' not in p)        # repr delimits with double quotes: nothing is escaped for the quotes
+
+    def E(c):
+        if c == "'":
+            return "'" if dq else "\\'"
+        return repr(c)[1:-1] if c != "\\" else "\\"
+    out, i = [], 0
+    while i < len(p):
+        c = p[i]
+        if c == "\\" and i + 1 < len(p):
+            X = p[i + 1]
+            out.append("\\" + X if (" " <= X <= "~" and X != "'") else E(X))
+            i += 2
+        else:
+            out.append(E(c))
+            i += 1
+    return "".join(out)
+
+
+def _export_words(args):
+    first, maxlen = args
+    import itertools
+    from pregex.core.pre import Pregex
+    bad, n = [], 0
+    for L in range(0, maxlen):
+        for w in itertools.product(EXPORT_ALPHABET, repeat=L):
+            s = first + "".join(w)
+            n += 1
+            try:
+                got = Pregex(s, escape=False).get_pattern()
+            except Exception as e:
+                got = "raised " + type(e).__name__
+            if got != export_reference(s):
+                bad.append({"pattern": s, "exported": got, "unit_wise": export_reference(s)})
+                if len(bad) > 3:
+                    return n, bad
+    return n, bad
+
+
+EXPORT_CONTEXTS = ["%s", "a%sb", "[%s]", "[a%s]", "[^%sa]", "[%s-\U0010ffff]", "[\x00-%s]", "(?:%s)+", "(?#%s)x", "%s{2,}?", "(?<=%s)a"]
+
+
+def _export_units(rng):
+    from pvc import native as N
+    N.install_noopt()
+    p, _c = N._parser()
+
+    def tree(t):
+        try:
+            return repr(p.parse(t, 24))
+        except Exception as e:
+            return "invalid"
+    bad, n = [], 0
+    for cp in range(*rng):
+        if 0xD800 <= cp <= 0xDFFF:
+            continue
+        c = chr(cp)
+        if " " <= c <= "~" and c != "'":
+            continue                      # printable ASCII: both units are exported as they are
+        for ctx_quote in ("", '"') if c == "'" else ("",):    # with a double quote elsewhere in the pattern repr escapes the single one
+            imgs = []
+            for unit in (c, "\\" + c):
+                img = export_reference(unit + ctx_quote)
+                imgs.append(img[:len(img) - len(ctx_quote)])
+            if not all(i.isprintable() for i in imgs):
+                bad.append({"unit": c, "image": imgs[0], "what": "image not printable"})
+            for C in EXPORT_CONTEXTS:
+                ti = {i: tree(C % i) for i in set(imgs)}
+                for unit, img in zip((c, "\\" + c), imgs):
+                    n += 1
+                    if unit != img and tree(C % unit) != ti[img]:
+                        bad.append({"unit": unit, "image": img, "context": C, "what": "image denotes something else"})
+        if len(bad) > 5:
+            break
+    return n, bad
+
+
+def export_decision(workers=16, maxlen=6):
+    import multiprocessing
+    step = 0x110000 // (workers * 4) + 1
+    chunks = [(a, min(a + step, 0x110000)) for a in range(0, 0x110000, step)]
+    firsts = [a + b for a in EXPORT_ALPHABET for b in EXPORT_ALPHABET] + [""] + EXPORT_ALPHABET
+    with multiprocessing.Pool(workers) as pool:
+        words = pool.map(_export_words, [(f, maxlen - 1) for f in firsts if len(f) == 2] + [(f, 1) for f in firsts if len(f) < 2])
+        units = pool.map(_export_units, chunks)
+    # long backslash runs (parity) in front of every representative
+    runs = []
+    from pregex.core.pre import Pregex
+    for k in range(0, 40):
+        for x in EXPORT_ALPHABET[1:] + [""]:
+            for tail in ("", "'", '"a', "\\\n"):
+                s = "\\" * k + x + tail
+                got = Pregex(s, escape=False).get_pattern()
+                if got != export_reference(s):
+                    runs.append({"pattern": s, "exported": got, "unit_wise": export_reference(s)})
+    return {"words": sum(w[0] for w in words) + 40 * 9 * 4, "word_bad": ([b for w in words for b in w[1]] + runs)[:6],
+            "unit_checks": sum(u[0] for u in units), "unit_bad": [b for u in units for b in u[1]][:6],
+            "max_length": maxlen + 1, "alphabet": EXPORT_ALPHABET}
